@@ -77,7 +77,7 @@ PROP = dict(
     bin="c09",
     run_targets=["Run/RunC09.vo"],
     prop_targets=["Properties/C09.vo"],
-    cases=dict(quick=1600, thorough=10000),
+    cases=dict(quick=1600, thorough=8000),
     release_too=True,
     level="proof",
     rule="three streams: (1) bsearch -- random UNSORTED/sorted/constant u64 arrays (len 0..300) and keys, slice::binary_search and "
